@@ -14,22 +14,24 @@ Definition vtt_case (c : text * list Z * Z * list Z) : bool :=
   let '(content, oracle, code, calls) := c in
   (outcome_code (vtt_run (subs oracle) content) =? code) && text_eqb (bools_code (vtt_calls (subs oracle) content)) calls.
 
-Definition srt_event_of_code (c : Z) : srt_event :=
-  if c =? 0 then EvStart None else if c =? 1 then EvStart (Some ColorAbsent) else if c =? 2 then EvStart (Some ColorNoValue)
-  else if c =? 3 then EvStart (Some ColorBad) else if c =? 4 then EvStart (Some ColorGood) else if c =? 5 then EvEnd else EvData.
+(* (event code, number of the tag name within the cue) *)
+Definition srt_event_of_code (ct : Z * Z) : srt_event :=
+  let '(c, t) := ct in
+  if c =? 0 then EvStart t None else if c =? 1 then EvStart t (Some ColorAbsent) else if c =? 2 then EvStart t (Some ColorNoValue)
+  else if c =? 3 then EvStart t (Some ColorBad) else if c =? 4 then EvStart t (Some ColorGood) else if c =? 5 then EvEnd t else EvData.
 Definition vtt_event_of_code (c : Z) : vtt_event :=
   if c =? 0 then TStartRuby else if c =? 1 then TStartRt else if c =? 2 then TStartSpan else if c =? 3 then TTimestamp
   else if c =? 4 then TEnd else TData (Z.to_nat (c - 10)).
 (* (attached, event codes, expected outcome code) *)
-Definition srt_cursor_case (c : Z * list Z * Z) : bool :=
+Definition srt_cursor_case (c : Z * list (Z * Z) * Z) : bool :=
   let '(a, es, code) := c in outcome_code (srt_cursor_run (a =? 1) (map srt_event_of_code es)) =? code.
 Definition vtt_cursor_case (c : Z * list Z * Z) : bool :=
   let '(a, es, code) := c in outcome_code (vtt_cursor_run (a =? 1) (map vtt_event_of_code es)) =? code.
 (* the triggers agree with the failures: internal outcome => a trigger fires (the partial theorems, evaluated) *)
-Definition srt_cursor_trigger_case (c : Z * list Z * Z) : bool :=
+Definition srt_cursor_trigger_case (c : Z * list (Z * Z) * Z) : bool :=
   let '(a, es, code) := c in
   let ev := map srt_event_of_code es in
-  implb (20 <=? code) (srt_stray_end ev || srt_font_novalue ev).
+  implb (20 <=? code) (srt_font_novalue ev).
 Definition vtt_cursor_trigger_case (c : Z * list Z * Z) : bool :=
   let '(a, es, code) := c in
   let ev := map vtt_event_of_code es in
@@ -56,14 +58,14 @@ Definition stl_rows_of (l : list Z) : stl_rows :=
 Definition stl_case (c : list Z * list Z * list (Z * Z) * list Z * Z) : bool :=
   let '(st, rw, rle, oracle, code) := c in
   outcome_code (stl_run {| cfg_start := stl_start_of st; cfg_rows := stl_rows_of rw |} (subs oracle) (rle_expand rle)) =? code.
-(* internal outcome of the model not taken from the oracle => one of the three triggers fires (the partial theorem, evaluated) *)
+(* internal outcome of the model not taken from the oracle => the trigger fires (the partial theorem, evaluated) *)
 Definition stl_trigger_case (c : list Z * list Z * list (Z * Z) * list Z * Z) : bool :=
   let '(st, rw, rle, oracle, code) := c in
   let cfg := {| cfg_start := stl_start_of st; cfg_rows := stl_rows_of rw |} in
   let file := rle_expand rle in
   let gsi := firstn 1024 file in
   implb ((20 <=? code) && negb (existsb (fun o => o =? code) oracle))
-        (trig_zero_rows cfg gsi || trig_zero_count gsi || trig_cum_first cfg file).
+        (trig_zero_rows cfg gsi).
 
 (* int(bytes([a, b])) for a whole row b = 0..255: -100000 encodes ValueError *)
 Definition bytes_int_row (a : Z) (row : list Z) : bool :=
